@@ -57,7 +57,7 @@ fn vault_part(quick: u64, thorough: u64) -> PlanPart {
 }
 
 pub fn all_ids() -> Vec<&'static str> {
-    vec!["C01", "C02", "C03", "C04", "C05", "C06", "C07", "C14", "C15"]
+    vec!["C01", "C02", "C03", "C04", "C05", "C06", "C07", "C14", "C15", "C17"]
 }
 
 pub fn plan_for(id: &str) -> Option<Plan> {
@@ -114,6 +114,17 @@ pub fn plan_for(id: &str) -> Option<Plan> {
             stubbed: STUBS.to_vec(),
             assumptions: vec!["program space exhaustive only within the stated alphabet, depth and length", "loan amount fixed to a third of the vault backing in the enumeration; other amounts are sampled"],
             want_probes: vec!["exact_repay_ok", "minus1_refused", "nested_loan_same_vault", "router_loan_exact_accounting", "enumerated_program"],
+            exhaustive: true,
+        }),
+        "C17" => Some(Plan {
+            property: "C17",
+            level: "fault_enumeration",
+            rule: "complete product {constant-product pair, stableswap pair, 3-pool, vault} x all 2^3 toggle combinations x {empty, funded} = 64 cases (run index mod 64), each executing every entry path of every operation (pair: direct provide, frontend helper, withdraw hook, native swap, cw20 swap hook, router native, router cw20; 3-pool: provide, withdraw hook, native swap, cw20 swap hook; vault: deposit, withdraw hook, flash loan direct, flash loan via vault router) under the toggles and again after re-enabling, with a run-specific amount; distinct = (case, path, amount, phase) of successful enabled operations",
+            parts: vec![PlanPart { scen: scen::<scen::toggle::Toggle>(), quick_runs: 64 * 6, thorough_runs: 64 * 400 }],
+            real: vec!["terraswap_pair, stableswap_3pool, terraswap_factory, terraswap_router, frontend_helper, incentive_factory, incentive, vault, vault_factory, vault_router, terraswap_token (all real, from /repo)", "fee-distributor-mock from /repo (epoch source for the incentive)", "borrower harness contract"],
+            stubbed: STUBS.to_vec(),
+            assumptions: vec!["fee-collector aggregation as a swap entry path is exercised by the HUB scenario, not here"],
+            want_probes: vec!["disabled_path_exercised", "enabled_path_succeeded"],
             exhaustive: true,
         }),
         "C15" => Some(pool2_plan("C15", RULE, 6000, 300_000, vec!["swap_rejected_for_slippage", "deposit_rejected_for_slippage", "router_rejected_min_receive", "min_receive_receiver_had_balance"])),
